@@ -153,3 +153,33 @@ def standard_check(prop, build, ok_real, describe, level_text, assumptions, jobs
         exhaustive=False)
     vc.write_evidence(prop, 'model_checking', coverage, assumptions, time.time() - t0, violations=len(out.violations))
     return out.finish()
+
+
+def replay_generic(prop, build, ok_real, path, other=None, only=None):
+    """`./check <ID> --replay <file>` for the K-gen checks: rebuild the consumer crate from the working tree and push the
+    recorded solver assignment (or native fuzz input) through the real serde_json path.  `other(payload)` handles replay
+    files written by a check's engine-M part."""
+    p = json.load(open(path))
+    if 'native' not in p:
+        if other is None:
+            print('replay file has no harness playback')
+            return 2
+        return other(p)
+    K = KgenRun(prop, only=only)
+    build(K.crate)
+    K.crate.write()
+    err = K.build_native()
+    if err:
+        print('consumer crate does not compile: ' + err[-400:])
+        return 2
+    if p.get('playback') is not None:
+        rep = K.native_replay(p['native'], p['playback'])
+        print(json.dumps(rep)[:800])
+        if rep is None or rep.get('vacuous'):
+            return 2
+        return 0 if ok_real(rep['real']) else 1
+    # a failure first seen by the native differential run: repeat that run
+    bad_model, real_bad = K.native_fuzz([p['native']], 400 if K.tier == 'quick' else 5000)
+    for n, first in real_bad:
+        print(first[:600])
+    return 1 if real_bad else 0
